@@ -14,6 +14,7 @@ that the C++ has no other effect (abort, signal, stderr) is the correspondence o
 under ASan+UBSan on every run.
 -/
 import LLBuild.Lemmas.DepInfo
+import LLBuild.Lemmas.MakeDepsSlices
 
 namespace LLBuild.MakeDeps
 
@@ -35,6 +36,19 @@ theorem C19_lexWord_no_oob (inp : Bytes) (pos : Nat) (h : pos ≤ inp.length) :
     ∃ r, lexWord inp pos = .ok r ∧ pos ≤ r.1 ∧ r.1 ≤ inp.length := by
   obtain ⟨r, hr, hb⟩ := lexWord_ok inp pos h
   exact ⟨r, hr, lexWord_ge hr, hb⟩
+
+/-- "reads no memory outside the supplied buffer", the callback arguments: for EVERY byte string and either value of
+`ignoreSubsequentOutputs`, every raw word handed to `actOnRuleStart` / `actOnRuleDependency` is a non-empty slice
+`[s, e)` of the input with `0 ≤ s < e ≤ size`, and every position handed to `error` is `≤ size`. -/
+theorem C19_makedeps_slices_in_bounds (ign : Bool) (inp : Bytes) (acts : List Action) (h : parse ign inp = .ok acts) :
+    ∀ a ∈ acts, a.inBounds inp :=
+  parseRules_inBounds ign h (Nat.zero_le _)
+
+-- non-vacuity: a stream with both kinds of words and an error position; `inBounds` is a real constraint
+example : parse false [97, 58, 32, 98, 10, 58] =
+    .ok [.ruleStart [97] [97], .dep [98] [98], .ruleEnd, .error .unexpectedInFile 5] := by decide +kernel
+example : ¬ Action.inBounds [97] (.error .unexpectedInFile 2) := by simp [Action.inBounds]
+example : Action.inBounds [97, 58, 32, 98, 10] (.dep [98] [98]) := ⟨3, 4, by decide, by decide, by decide⟩
 
 -- non-vacuity / the former witnesses: `a: b\` (F11) now parses, the trailing backslash standing for itself
 example : parse false [97, 58, 32, 98, 92] = .ok [.ruleStart [97] [97], .dep [98, 92] [98, 92], .ruleEnd] := by decide +kernel
